@@ -3365,7 +3365,13 @@ impl Connection {
             );
             NewConnectionId {
                 sequence: issued.sequence,
-                retire_prior_to: self.local_cid_state.retire_prior_to(),
+                // A retransmitted frame may describe a CID issued before `retire_prior_to` last
+                // advanced; never ask the peer to retire beyond the frame's own sequence number,
+                // which it would reject as malformed.
+                retire_prior_to: self
+                    .local_cid_state
+                    .retire_prior_to()
+                    .min(issued.sequence),
                 id: issued.id,
                 reset_token: issued.reset_token,
             }
